@@ -288,42 +288,56 @@ def loadTrailer (st : St V) (root : Nat × Nat) (info : Option Nat) (prev : Opti
       | _ => .err
   | _ => .err
 
+/-- `trailer.to_dict(self)`: /Info is `indirect`, a new object on every save -/
+def prepInfo (d : Doc V) : St V × Option Nat :=
+  match d.tr.info with
+  | some v => let (s, i) := create d.st v; (s, some i)
+  | none => (d.st, none)
+
+/-- the state in which the loop over the changes starts -/
+structure Prep (V : Type) where
+  st2 : St V            -- info object created, cross-reference stream promised
+  infoRef : Option Nat
+  xid : Nat             -- number promised for the cross-reference stream
+  size : Nat            -- trailer.size = refs.len() + 2, taken before anything is allocated
+
+def prep (d : Doc V) : Prep V :=
+  let p := prepInfo d
+  ⟨(promise p.1).1, p.2, p.1.refs.length, d.st.refs.length + 2⟩
+
+/-- the storage after the revision is complete: cross-reference stream object and section appended,
+    `fulfill(xref_promise, stream)` (= `update`: pending value, cache dropped), `startxref` -/
+def commit (P : Params V) (L : Layout) (d : Doc V) (pr : Prep V) (w : Written V) (refs rows : List XRef) : St V :=
+  { pr.st2 with
+      refs := refs, changes := chInsert pr.st2.changes pr.xid (P.xrefVal, 0), cache := [],
+      objs := w.objs ++ [⟨w.len, pr.xid, 0, P.xrefVal, []⟩],
+      secs := pr.st2.secs ++ [⟨w.len, [⟨0, rows⟩], pr.size, d.tr.prev, d.tr.root, pr.infoRef⟩],
+      len := w.len + L.xrefLen + L.tailLen, startxref := w.len - pr.st2.start }
+
 /-- `Storage::save` (repaired). On failure nothing of the attempt is left in the backend and the
     promise for the cross-reference stream is withdrawn. -/
 def save (P : Params V) (L : Layout) (d : Doc V) : Doc V × Out SaveInfo :=
-  let st := d.st
-  let size := st.refs.length + 2
-  -- trailer.to_dict(self): /Info is `indirect`
-  let (st1, infoRef) : St V × Option Nat := match d.tr.info with
-    | some v => let (s, i) := create st v; (s, some i)
-    | none => (st, none)
-  let (st2, xid) := promise st1
-  match writeChanges P L st2.start st2.changes ⟨st2.refs, st2.objs, st2.len⟩ with
+  let pr := prep d
+  match writeChanges P L pr.st2.start pr.st2.changes ⟨pr.st2.refs, pr.st2.objs, pr.st2.len⟩ with
   | (w, .ok ()) =>
-    let xpos := w.len - st2.start
-    let refs := w.refs.set xid (.raw xpos 0)
-    match rowsOf (refs.take (xid + 1)) with
+    let xpos := w.len - pr.st2.start                               -- D23
+    let refs := w.refs.set pr.xid (.raw xpos 0)
+    match rowsOf (refs.take (pr.xid + 1)) with
     | none =>
       -- write_stream fails: roll back (D25)
-      ({ d with st := { st2 with refs := refs.dropLast } }, .err)
+      ({ d with st := { pr.st2 with refs := refs.dropLast } }, .err)
     | some rows =>
+      let st3 := commit P L d pr w refs rows
       let (aw, bw) := widths refs
-      let sec : Sec := ⟨w.len, [⟨0, rows⟩], size, d.tr.prev, d.tr.root, infoRef⟩
-      let xobj : Obj V := ⟨w.len, xid, 0, P.xrefVal, []⟩
-      -- fulfill(xref_promise, stream): refs[xid] is Raw{gen 0}
-      let st3 : St V :=
-        { st2 with refs := refs, changes := chInsert st2.changes xid (P.xrefVal, 0), cache := [],
-                   objs := w.objs ++ [xobj], secs := st2.secs ++ [sec],
-                   len := w.len + L.xrefLen + L.tailLen, startxref := xpos }
-      let info : SaveInfo := ⟨xid, xpos, size, aw, bw, rows⟩
-      match loadTrailer st3 d.tr.root infoRef d.tr.prev with
+      let info : SaveInfo := ⟨pr.xid, xpos, pr.size, aw, bw, rows⟩
+      match loadTrailer st3 d.tr.root pr.infoRef d.tr.prev with
       | .ok tr => (⟨st3, tr⟩, .ok info)
       | .err => (⟨st3, d.tr⟩, .err)
       | .panic => (⟨st3, d.tr⟩, .panic)
       | .oof => (⟨st3, d.tr⟩, .oof)
-  | (w, .err) => ({ d with st := { st2 with refs := w.refs.dropLast } }, .err)
-  | (w, .panic) => ({ d with st := { st2 with refs := w.refs } }, .panic)
-  | (w, .oof) => ({ d with st := { st2 with refs := w.refs } }, .oof)
+  | (w, .err) => ({ d with st := { pr.st2 with refs := w.refs.dropLast } }, .err)
+  | (w, .panic) => ({ d with st := { pr.st2 with refs := w.refs } }, .panic)
+  | (w, .oof) => ({ d with st := { pr.st2 with refs := w.refs } }, .oof)
 
 /-! ### loading (`read_xref_table_and_trailer`, `File::load_data`) -/
 
